@@ -558,9 +558,7 @@ def leaf_kinds(types, dom, ran, mode='c04'):
         td = types[dom]
         if td['kind'] == 'power' and td['of'] == ran:
             out += ['pwinner', 'pwsum']
-            if not D.cplx and (types[ran].get('weighting') or {}).get(
-                    'type') != 'array':
-                # (array-weighted base space: known finding C06-K3, zoo only)
+            if not D.cplx:
                 out += ['pwnorm', 'pwnorm', 'pwnorm']
             if int(td['n']) == 2 and td.get('default'):
                 out += ['lincomb', 'ufunc_add', 'ufunc_subtract']
@@ -980,9 +978,7 @@ def trees(draw, types, dom, ran, depth, mode='c04', pairs=None,
         both = a['fk'] == 'func' and b['fk'] == 'func'
         if rule == 'sum':
             hows = ['op', 'op', 'op', 'ctor']
-            if dom_space and ran_space and (mode != 'c06' or dom == ran):
-                # (C06: OperatorSum(..., tmp_ran, tmp_dom).derivative with
-                # domain != range is known finding C06-K2)
+            if dom_space and ran_space:
                 hows.append('ctor_tmp')
             node['how'] = draw(st.sampled_from(hows))
             node['fk'] = 'func' if both and node['how'] == 'op' else 'op'
@@ -1013,10 +1009,6 @@ def trees(draw, types, dom, ran, depth, mode='c04', pairs=None,
                 real_linear_only(types, node['a'])):
             # operators C^n -> R^n flagged linear are only real-linear; ODL
             # rewrites A*a -> a*A for them, which needs a real scalar
-            scplx = False
-        if scplx and mode == 'c06' and nonholomorphic(types, node['a']):
-            # known finding C06-K4 (derivative of A*a for complex a and a
-            # non-holomorphic A): excluded by construction
             scplx = False
         classes = None
         if D.cat == 'field' and node['a']['fk'] == 'func':
@@ -1070,8 +1062,6 @@ def trees(draw, types, dom, ran, depth, mode='c04', pairs=None,
         return node
     if rule == 'addvec':
         node['a'] = flvec_child() or sub_full()
-        if mode == 'c06' and aliases_input(node['a']):
-            return node['a']        # region of known finding C04-K4
         node['v'] = draw(values(types, ran))
         node['how'] = draw(st.sampled_from(['A+v', 'v+A', 'A-v', 'v-A',
                                             'ctor']))
@@ -1081,8 +1071,6 @@ def trees(draw, types, dom, ran, depth, mode='c04', pairs=None,
         if not ran_space and child['fk'] != 'func':
             # plain operators with field range do not offer ``A + c``
             return child
-        if mode == 'c06' and ran_space and aliases_input(child):
-            return child            # region of known finding C04-K4
         node['a'] = child
         node['s'] = draw(scalars(tinfo(types, fkey_ran).cplx))
         node['how'] = draw(st.sampled_from(['A+c', 'c+A', 'A-c', 'c-A']))
@@ -1438,17 +1426,6 @@ def true_linear(node):
 
 
 EXTRA_LINEAR = {'broadcast', 'reduction', 'diagonal', 'pspaceop'}
-
-
-def aliases_input(node):
-    """The operator returns (a view of) its argument when called
-    out-of-place: RealPart / ImagPart and what merely forwards to them
-    (known finding C04-K4: OperatorVectorSum then modifies the argument)."""
-    if node['op'] in ('pos', 'pow'):
-        return aliases_input(node['a'])
-    if node['op'] == 'comp':
-        return aliases_input(node['a']) and aliases_input(node['b'])
-    return node['op'] == 'leaf' and node['kind'] in ('realpart', 'imagpart')
 
 
 NONHOLO_LEAVES = {'realpart', 'imagpart', 'cmod', 'cmodsq', 'norm', 'dist',
